@@ -296,7 +296,7 @@ func c10Clean(n, workers, fanout int) {
 	w.checkQuiescent(res)
 }
 
-//verif:entry tier=quick,thorough steps=4000000 cover=sum,nooutput,void,empty,morethanworkers
+//verif:entry dpor tier=quick,thorough steps=4000000 cover=sum,nooutput,void,empty,morethanworkers
 //verif:doc MapReduce / MapReduceVoid without faults, ALL interleavings at synchronisation points (sleep-set reduced): (items, workers) in {0,1,2}x{1} and {0,1}x{2}, item values symbolic, mapper fan-out 0..2 (quick: fan-out 2 only with <= 1 item and 1 worker), reducer writing the weighted sum or nothing; every item mapped exactly once, every written value reduced exactly once, result = exact weighted sum (ErrReduceNoOutput / nil for Void), mapper gauge <= workers, no goroutine left.
 func Verif_C10_Clean() {
 	workers := 1 + rt.Choose("workers", 2)
@@ -437,7 +437,7 @@ func c10Faults(n, workers, fault int, stall bool) {
 	w.checkQuiescent(res)
 }
 
-//verif:entry tier=quick,thorough steps=4000000 cover=repanic,cancelerr,cancelnil,completed
+//verif:entry dpor tier=quick,thorough steps=4000000 cover=repanic,cancelerr,cancelnil,completed
 //verif:doc MapReduce / MapReduceVoid with one fault, ALL interleavings (sleep-set reduced): 1 item x 1 worker (thorough also 1 item x 2 workers and 2 items x 1 worker), fan-out 1; the generator before item j, the mapper of item j or the reducer after k values panics, or the mapper/reducer cancels with an error or nil, or the mapper cancels twice with errors of different dynamic types; the reducer either sums at the end or writes on the first value. The call returns (no deadlock) the cancel error / ErrCancelWithNil or re-raises exactly the user panic; a nil error means all work was done; no goroutine is left.
 func Verif_C10_Faults() {
 	workers, n := 1, 1
@@ -527,7 +527,7 @@ func Verif_C10_TwoCancels() {
 	w.checkQuiescent(res)
 }
 
-//verif:entry tier=quick,thorough steps=4000000 cover=masked
+//verif:entry dpor tier=quick,thorough steps=4000000 cover=masked
 //verif:doc MapReduce, a result written while a cancellation is in progress (all interleavings): the generator stalls after its only item, the mapper writes and calls cancel(err) - which records the error and then waits for the stalled generator before it closes the pipeline - and the reducer writes its result exactly in that window (released only when everything else is blocked); then the generator is released. The call returns the error passed to cancel, not the late result.
 func Verif_C10_CancelWhileSourceStalls() {
 	genGate, redGate := make(chan struct{}), make(chan struct{})
